@@ -118,3 +118,18 @@ fn cryptoutil_xor_keystream_mut_refuses_short_keystream() {
     xor_keystream_mut(&mut b[..n], &k[..m]);
     kani::cover!(true);
 }
+// write_u64_le(dst, x): the eight little-endian bytes of x (contract text of the Verus stub in units/inc/cryptoutil_stubs.rs)
+// @harness props=C06,C07,C01,C20 kind=full tier=quick
+#[kani::proof]
+#[kani::unwind(9)]
+fn cryptoutil_write_u64_le() {
+    let x: u64 = kani::any();
+    let mut d = [0u8; 8];
+    write_u64_le(&mut d, x);
+    let mut i = 0;
+    while i < 8 {
+        assert!(d[i] == (x >> (8 * i)) as u8);
+        i += 1;
+    }
+    kani::cover!(true);
+}
